@@ -5,7 +5,7 @@
    one observation; the protocol rules (guards) and the property monitors are defined on
    top of it in Proto.v / Mon*.v. *)
 From RecordUpdate Require Import RecordUpdate.
-From LE Require Import Base Ev.
+From LE Require Import Base Ev Consts.
 Open Scope Z_scope.
 
 (* association maps keyed by Z: newest binding first, first match wins *)
@@ -152,7 +152,9 @@ Definition bapply (b0 : base) (te : Z * ev) : base :=
           (* a successful refresh gives the instance a new (token, revision) view *)
           (* the heartbeat loop keeps the new revision only while its own term is still running *)
           if (p_kind p =? kUpdate) && (p_inner p =? sHeartbeat) && (rk =? oOk)
-             && io_flag (inst_of b1 i) && (v_stok (vinfo_of b1 (p_val p)) =? io_tok (inst_of b1 i)) then
+             && io_flag (inst_of b1 i) && (v_stok (vinfo_of b1 (p_val p)) =? io_tok (inst_of b1 i))
+             (* ... and only an answer that arrives before the loop's own time-out is looked at *)
+             && (t - p_t p <? hb_update_timeout (ic_H (cfg_of b1 i))) then
             upd_inst b1 i (fun x => x <| io_views ::= cons (io_tok x, rev) |>)
           else b1
       end
@@ -170,10 +172,11 @@ Definition bapply (b0 : base) (te : Z * ev) : base :=
   | EDemote i gid => upd_inst b i (fun x => x <| io_demotes ::= Z.succ |>)
   | ETrans i f to => upd_inst b i (fun x => x <| io_state := to |>)
   | ELog i code gid extra =>
-      if code =? 1 then upd_inst b i (fun x => x <| io_state := stCandidate |> <| io_started := true |> <| io_stopped := false |>)
+      if code =? 1 then upd_inst b i (fun x => x <| io_state := stCandidate |> <| io_started := true |> <| io_stopped := false |> <| io_stopping := false |>)
       else b
   | EApi i call a1 a2 a3 a4 gid =>
-      if (call =? aStop) || (call =? aStopCtx) then upd_inst b i (fun x => x <| io_stopping := true |>)
+      (* cancelling the context passed to Start begins a shutdown as well (call 8) *)
+      if (call =? aStop) || (call =? aStopCtx) || (call =? 8) then upd_inst b i (fun x => x <| io_stopping := true |>)
       else b
   | EApiRet i call res err _ =>
       if (call =? aStop) || (call =? aStopCtx) then
